@@ -237,6 +237,7 @@ func decArb(c *Ctx, mod, typ string, key int, mode arbMode) {
 			used := ds.steps - steps0
 			limit := 4000 + 400*nfields + 400*N
 			c.Prove(ds, "linear-time", B(used <= limit), nil)
+			c.lockLeak(ds, mc, input)
 		}
 		if mode.noPanic || mode.alloc {
 			saved := ds.allocs
